@@ -458,7 +458,7 @@ def run_link_tie(res, rng, quick):
 
 # ---- macrobody card texts (coq/C02/LinkC03.v): C02's scanner + C03's body_t4 ----
 
-def gen_body_text(rng):
+def gen_body_text(rng, tr_number=None):
     import c03_gen as G
     mn, prm = rng.choice([
         lambda: ('box', G.gen_box(rng)), lambda: ('rpp', G.gen_rpp(rng)),
@@ -475,13 +475,14 @@ def gen_body_text(rng):
     if rng.random() < 0.06:
         toks = toks[:-1] if rng.random() < 0.5 else toks + ['1']
     name = str(rng.randint(1, 9999))
+    trpart = '' if tr_number is None else str(tr_number) + rng.choice(WS)
     text = (rng.choice(['', ' ']) + rng.choice(['', '*', '+']) + name
-            + rng.choice(WS) + mixed_case(rng, mn) + rng.choice(WS)
+            + rng.choice(WS) + trpart + mixed_case(rng, mn) + rng.choice(WS)
             + rng.choice(WS).join(toks))
     return text
 
 
-def impl_body_text(text):
+def impl_body_text(text, trs=None):
     '''get_surfaces + to_surfaces_mcnp (macrobody branch) + convert_mcnp_surface.'''
     from t4_geom_convert.Kernel.FileHandlers.Parser.ParseMCNPSurface import \
         to_surfaces_mcnp
@@ -493,7 +494,7 @@ def impl_body_text(text):
     _, bc, name, tr, typ, params = parsed
     try:
         with contextlib.redirect_stdout(io.StringIO()):
-            surfs = to_surfaces_mcnp(name, (bc, tr, typ, params), {})
+            surfs = to_surfaces_mcnp(name, (bc, tr, typ, params), trs or {})
             coll = convert_mcnp_surface(name, surfs)
     except Exception:                   # pylint: disable=broad-except
         return None
@@ -541,4 +542,46 @@ def run_body_tie(res, rng, quick):
     if errs and not bad:
         res.violation('correspondence', f'tie:link-C03: {errs[:1]}',
                       {'theorem_or_correspondence': 'tie:link-C03'},
+                      found_input=False)
+
+
+def run_body_tr_tie(res, rng, quick):
+    '''Macrobody card texts WITH a TR number: the with-TR half of LinkC03.v.'''
+    from props import c02
+    header = c02.HEADER.replace('C02.Exec.', 'C02.Text C02.LinkC03 C02.Exec.') \
+        + 'From Coq Require Import String.\n'
+    cases, meta = [], []
+    for _ in range(100 if quick else 1200):
+        text = gen_body_text(rng, tr_number=5)
+        tr = gen_tr(rng)
+        content = impl_content([text])
+        out = impl_body_text(text, {5: list(tr)})
+        res.seen(('bodytexttr', text, tuple(tr)), nontrivial=True)
+        res.count('bodytexttr:' + ('raised' if out is None else 'ok'))
+        if out == 'transform' or (out and any(
+                v != v or abs(v) == float('inf') for _, ps, _ in out for v in ps)):
+            continue
+        exp = copt(out, lambda o: clist(
+            cpair(ty, c02.coq_floats(ps), cz(sd)) for ty, ps, sd in o))
+        cases.append(cpair(c02.coq_floats(tr), cstr_any(content), exp))
+        meta.append((text, tr, out))
+    bad, errs = common.run_case_files('c02_bodytexttr', header,
+                                      'bodytexttr_case', 'check_bodytexttr',
+                                      cases)
+    res.obligation(f'tie:link-C03-TR ({len(cases)} macrobody card texts with a '
+                   'TR number: C02 scanner + C03 body_t4 under the '
+                   'transformation = get_surfaces + to_surfaces_mcnp(TR) + '
+                   'convert_mcnp_surface)', not bad and not errs,
+                   f'{len(bad)} disagreements {errs[:1]}')
+    for idx in bad[:6]:
+        res.violation('correspondence',
+                      f'tie:link-C03-TR: linked model and implementation '
+                      f'disagree on {meta[idx]!r}'[:600],
+                      {'input': {'text': meta[idx][0], 'tr': meta[idx][1]},
+                       'observed': str(meta[idx][2]),
+                       'theorem_or_correspondence': 'tie:link-C03-TR'},
+                      found_input=False)
+    if errs and not bad:
+        res.violation('correspondence', f'tie:link-C03-TR: {errs[:1]}',
+                      {'theorem_or_correspondence': 'tie:link-C03-TR'},
                       found_input=False)
